@@ -186,6 +186,15 @@ func (g *Generator) beginOutput(
 		outputName = filepath.Clean(outputName)
 	}
 
+	// A relative and an absolute spelling of one path name one file.
+	for _, o := range g.outputs {
+		if sameOutputFile(o.file.FileName, outputName) {
+			outputName = o.file.FileName
+
+			break
+		}
+	}
+
 	for _, o := range g.outputs {
 		if o.file.FileName == outputName && o.file.Package.QualifiedName != packageName {
 			return nil, fmt.Errorf(
@@ -214,6 +223,21 @@ func (g *Generator) beginOutput(
 	g.outputs[id] = output
 
 	return output, nil
+}
+
+func sameOutputFile(a, b string) bool {
+	if a == b {
+		return true
+	}
+
+	if a == "" || a == "-" || b == "" || b == "-" {
+		return false
+	}
+
+	absA, errA := filepath.Abs(a)
+	absB, errB := filepath.Abs(b)
+
+	return errA == nil && errB == nil && absA == absB
 }
 
 func (g *Generator) makeEnumConstantName(typeName, value string) string {
